@@ -302,6 +302,15 @@ def run(ctx):
     ctx.require('duplicate_connects', 5)
     ctx.require('session_blocks_nested', 5)
     ctx.require('session_blocks_left_by_exception', 5)
+    # threaded server: a re-CONNECT racing the end of the old connection
+    from checks import c16_sched
+    ctx.require('reconnect_race_schedules', 30)
+    ctx.require('reconnect_race_accepted', 5)
+    if ctx.shard == 0:
+        c16_sched.run_part(ctx)
+    else:
+        ctx.required.pop('reconnect_race_schedules')
+        ctx.required.pop('reconnect_race_accepted')
     k = 0
     while not ctx.out_of_time() and not ctx.too_many_violations():
         run_case(ctx, k)
@@ -310,4 +319,7 @@ def run(ctx):
 
 
 def replay(ctx, w):
+    if w['witness'].get('part') == 'reconnect_race':
+        from checks import c16_sched
+        return c16_sched.replay(ctx, w)
     run_case(ctx, w['witness']['case_index'])
